@@ -125,7 +125,22 @@ static void run_cfg( const char* cfgname, const std::string& s, int policy, std:
    const char* data = buf;
    const char* dend = buf + s.size();
    {
-      p::memory_input< T, Eol, const char* > in( data, dend, "c19", byte0, line0, col0 );
+      // stepper 2 / 3: the input has been used before and was restarted (a history): an eager input is re-based on new counters by
+      // restart( byte, line, column ), a lazy one keeps the counters of its construction
+      constexpr bool eager = ( T == p::tracking_mode::eager );
+      const bool restarted = stepper >= 2;
+      const std::size_t d = ( restarted && eager ) ? 1 : 0;
+      p::memory_input< T, Eol, const char* > in( data, dend, "c19", byte0 + 93 * d, line0 + d, col0 + 4 * d );
+      if( restarted ) {
+         (void)p::parse< p::seq< p::opt< p::any >, p::opt< p::eol >, p::opt< p::any > > >( in );
+         if constexpr( eager ) {
+            in.restart( byte0, line0, col0 );
+         }
+         else {
+            in.restart();
+         }
+         stepper -= 2;
+      }
       std::vector< p::position > positions;
       positions.push_back( in.position() );
       // a parsing run: consume step by step, with the eol rule (eager tracking then uses bump_to_next_line) or bytewise
@@ -202,8 +217,8 @@ static void run_cfg( const char* cfgname, const std::string& s, int policy, std:
             R.nontrivial( vf::mix( vf::mix( vf::fnv( s ), vf::fnv( cfgname ) ), vf::mix( k, byte0 * 31 + col0 ) ) );
          }
          if( !bad.empty() ) {
-            std::string sig = what + ":" + ( T == p::tracking_mode::lazy ? "lazy" : "eager" ) + ":eol" + std::to_string( policy ) + ( ( byte0 != 0 || col0 != 1 ) ? ":counters" : "" ) + ( li.crlf_under_cr_crlf ? ":crlf-under-cr_crlf" : "" );
-            const std::string kase = vf::jobj().str( "cfg", cfgname ).str( "hex", vf::hexs( s ) ).str( "text", vf::show( s ) ).num( "byte0", (long long)byte0 ).num( "line0", (long long)line0 ).num( "col0", (long long)col0 ).num( "stepper", stepper ).done();
+            std::string sig = what + ":" + ( T == p::tracking_mode::lazy ? "lazy" : "eager" ) + ":eol" + std::to_string( policy ) + ( ( byte0 != 0 || col0 != 1 ) ? ":counters" : "" ) + ( restarted ? ":after-restart" : "" ) + ( li.crlf_under_cr_crlf ? ":crlf-under-cr_crlf" : "" );
+            const std::string kase = vf::jobj().str( "cfg", cfgname ).str( "hex", vf::hexs( s ) ).str( "text", vf::show( s ) ).num( "byte0", (long long)byte0 ).num( "line0", (long long)line0 ).num( "col0", (long long)col0 ).num( "stepper", stepper + ( restarted ? 2 : 0 ) ).done();
             const std::string d = std::string( cfgname ) + " input '" + vf::show( s ) + "' initial " + std::to_string( byte0 ) + "/" + std::to_string( line0 ) + "/" + std::to_string( col0 ) + " position byte " + std::to_string( pos.byte ) + " line " + std::to_string( pos.line ) + " column " + std::to_string( pos.column ) + ": " + bad;
             if( is_known( sig ) ) {
                ++R.excluded_known;
@@ -242,7 +257,7 @@ static void run_all( const std::string& s, const char* only = nullptr, long b0 =
          if( b0 >= 0 && ( std::size_t( b0 ) != cn[ 0 ] || std::size_t( l0 ) != cn[ 1 ] || std::size_t( c0 ) != cn[ 2 ] ) ) {
             continue;
          }
-         for( int st = 0; st < 2; ++st ) {
+         for( int st = 0; st < 4; ++st ) {
             if( stepper >= 0 && st != stepper ) {
                continue;
             }
